@@ -108,6 +108,8 @@ type Chan struct {
 	reply   bool // cap-1 channel used as a one-shot reply slot (discipline checked at run time)
 	nsend   int
 	nrecv   int
+	wepoch  uint64
+	waiters []waiter
 }
 
 type slot struct {
@@ -278,6 +280,7 @@ type Sched struct {
 	en      []Trans
 	waitR   map[*Chan][]waiter
 	stop    bool
+	epoch   uint64
 	esteps  int
 	heart   *uint64
 	Values  map[string]interface{} // harness scratch, reset per execution
@@ -534,9 +537,7 @@ func callerSite() string {
 func (s *Sched) enabled() []Trans {
 	en := s.en[:0]
 	// index receivers on unbuffered channels
-	for k := range s.waitR {
-		delete(s.waitR, k)
-	}
+	s.epoch++
 	for _, g := range s.gs {
 		o := g.pend
 		if g.done || o == nil || o.kind != opSelect {
@@ -544,8 +545,12 @@ func (s *Sched) enabled() []Trans {
 		}
 		for ci := range o.cases {
 			c := &o.cases[ci]
-			if c.ch != nil && c.dir == dirRecv && c.ch.cap == 0 && !c.ch.closed {
-				s.waitR[c.ch] = append(s.waitR[c.ch], waiter{g, ci})
+			if ch := c.ch; ch != nil && c.dir == dirRecv && ch.cap == 0 && !ch.closed {
+				if ch.wepoch != s.epoch {
+					ch.wepoch = s.epoch
+					ch.waiters = ch.waiters[:0]
+				}
+				ch.waiters = append(ch.waiters, waiter{g, ci})
 			}
 		}
 	}
@@ -582,7 +587,10 @@ func (s *Sched) enabled() []Trans {
 							ready = true
 						}
 					default:
-						for _, w := range s.waitR[ch] {
+						if ch.wepoch != s.epoch {
+							break
+						}
+						for _, w := range ch.waiters {
 							if w.g != g {
 								en = append(en, Trans{Kind: tRendezvous, G: g, Ci: ci, G2: w.g, Cj: w.ci})
 							}
